@@ -140,3 +140,52 @@ def run_fault_history(seed, profile="general", n_bundles=12, probe_prob=0.6, max
         rec.bundle([['Calculate']], tag="quiet", clause="C04.quiet")
   rec.n_probes = probes
   return rec
+
+
+def run_readonly_history(seed, profile="summary", n_bundles=10, tid=None, hooks=None):
+  """
+  C29: after every bundle of a history on documents with side-effecting formulas (summary tables use
+  lookupOrAddDerived), a batch of read-only calls with enumerated / random arguments, then Calculate.
+  """
+  rng = random.Random("ro-%s" % (seed,))
+  gen = Gen("gen-%s" % (seed,), profile)
+  rec = Recorder(tid=tid or "ro:%s-%d" % (profile, seed))
+  rec.keep_states = bool(hooks and hooks.get("keep_states"))
+  rec.state, rec.init_state, rec.schema, rec.init_schema = {}, {}, {}, {}
+  rec.bundle([['InitNewDoc']], tag="init")
+  for uas in gen.setup_bundles():
+    rec.bundle(uas, note=uas_note(uas))
+  for _ in range(n_bundles):
+    view = DocView(rec.eng)
+    uas = gen.bundle(view, invalid_prob=0.05)
+    _, _, exc = rec.bundle(uas, note=uas_note(uas))
+    view = DocView(rec.eng)
+    tabs = view.user_tables(summary=True)
+    calls = [("fetch_meta_tables", [])]
+    for t in rng.sample(tabs, min(3, len(tabs))):
+      cols = sorted(view.tables[t]["cols"])
+      rows = view.tables[t]["rows"]
+      calls.append(("fetch_table", [t]))
+      fcols = [c for c in cols if view.tables[t]["cols"][c][2]] or cols
+      dcols = view.data_cols(t)
+      if cols and rows:
+        c, r = rng.choice(fcols), rng.choice(rows)
+        calls.append(("get_formula_error", [t, c, r]))
+        calls.append(("evaluate_formula", [t, rng.choice(fcols), rng.choice(rows)]))
+        calls.append(("autocomplete", [rng.choice(["$", "rec.", "%s.lookupRecords(" % t, "$%s." % c, "len("]),
+                                       t, rng.choice(cols), rng.choice(rows + ["new"]), None]))
+      if cols:
+        calls.append(("get_formula_prompt", [t, rng.choice(cols)]))
+      if dcols:
+        qc = rng.choice(dcols)
+        calls.append(("fetch_table_query", [t, {qc: [gen.value(view.tables[t]["cols"][qc][1], view), 1, "a"]}]))
+      calls.append(("find_col_from_values", [[1, 2, "a", "b", 3], 3, rng.choice([None, t])]))
+    # rows of the hidden summary helper columns evaluate lookupOrAddDerived
+    for t in tabs:
+      for c in list(rec.eng.tables[t].all_columns):
+        if c.startswith("#summary#") and view.tables[t]["rows"]:
+          calls.append(("get_formula_error", [t, c, rng.choice(view.tables[t]["rows"])]))
+    for call, args in calls:
+      rec.readonly_event(call, args)
+    rec.bundle([['Calculate']], tag="quiet", clause="C29.quiet")
+  return rec
